@@ -60,10 +60,13 @@ def slices(tier):
         Slice("comp2", [AT, DV, F], E1, 4, idx=(10,), jets=comp2, levels=[{"index", "tr", "det", "inner", "dot"}, {"mul", "add", "pow", "index"}, G1, FIN], mikinds=("fixed",), chain=True, **kw),
         Slice("tuple2", [AT, DV, ("dq", ()), F], E1, 4, idx=(10,), jets=tup2, levels=[{"index", "tr", "det", "inner"}, {"mul", "add", "pow", "index"}, G1, FIN], mikinds=("fixed",), chain=True, **kw),
         # Gateaux derivative through exp, ln, sin, ...: w vanishes at the point (w1 is 1 there)
-        Slice("math", [W, ("w1", ()), DV, F], MATH | {"mul", "add"}, 3, jets=mathj, fixed={"w": 0, "w1": 1},
-              levels=[MATH | {"mul"}, G1 | {"gateaux2"}, FIN], **dict(kw, chain="strict")),
+        Slice("math", [W, ("w1", ()), DV, F], MATH | {"mul", "add", "atan2"}, 3, jets=mathj, fixed={"w": 0, "w1": 1},
+              levels=[MATH | {"mul", "atan2"}, G1 | {"gateaux2"}, FIN], **dict(kw, chain="strict")),
         Slice("math2", [W, ("w1", ()), DV], MATH | {"mul", "add"}, 4, jets=mathj, fixed={"w": 0, "w1": 1},
               levels=[MATH | {"mul"}, {"exp", "ln", "sin", "cos", "mul"}, G1 | {"gateaux2"}, FIN], **dict(kw, chain="strict")),
+        # second derivatives through the elementary functions and atan2 with BOTH operands depending on w (w = 0 at the point)
+        Slice("math-second", [W, DV, DV2], MATH | {"atan2", "add", "mul"}, 5, lits=[LIT["one"]], jets=dict(scalar, seeds={"w": ("dv", "dv2")}), fixed={"w": 0},
+              levels=[{"add", "mul"}, MATH | {"atan2"}, G1, {"gateaux2"}, FIN], **dict(kw, chain="strict")),
         Slice("userd", [W, DV, F, G], A1, 3, lits=[LIT["two"]], jets=userd, levels=[{"mul", "add", "pow", "div", "abs"}, G1, FIN], **kw),
     ]
     if not q:
